@@ -6,6 +6,7 @@ CONSTANTS
   Peek = 0
   MaxTimeouts = 0
   Priors = {0}
+  DispatchBound = 2
   Defects = {}
 SPECIFICATION TraceSpec
 POSTCONDITION Accepted
